@@ -12,7 +12,15 @@
    run's behaviour; the list length plays the role of fuel, [Exhausted] = prefix used up).
    [Stopped j last]: normal end after exactly j complete iterations, last id = last.
    [Failed j e]: exception e at the end of iteration j (j = 0: before the first iteration).
-   [proper_table T]: T is neither "__REPS__" (the repetition marker) nor the empty string.       *)
+   [proper_table T]: T is not "__REPS__" (the repetition marker; a recipe table literally so
+   named would be read as a repetition target — the one corner these theorems exclude).
+
+   History: the code used to violate two clauses (K7: a no-progress first iteration of a
+   continued run went unnoticed; K10: the empty table name was never rejected and the run never
+   ended).  Both were repaired in /repo (0afda32, d9d462f); the model transcribes the repaired
+   code, the former `_refuted` / `_partial` statements are now the full theorems
+   C07_no_progress / C07_empty_table_name_rejected, and the old witnesses are regression
+   Examples at the end of this file.                                                            *)
 From Coq Require Import ZArith List.
 From SFV Require Import Base Stopping.
 From SFV.P Require Import StoppingP.
@@ -38,11 +46,11 @@ Print Assumptions C07_default_one_iteration.
 (* Target (T, N): if iterations 1..|pre| each make progress and together create < N rows at every
    boundary, and iteration |pre|+1 brings the total since this run's start to >= N, the run ends
    normally after exactly |pre|+1 whole iterations; the final id is start id + everything those
-   iterations created.  Same statement for fresh and continued runs: rows are counted from this
-   run's start. *)
+   iterations created.  Same statement for fresh and continued runs (any [cont]): rows are
+   counted from this run's start. *)
 Theorem C07_target_stops_at_first_boundary :
   forall T tables N cont pre x rest,
-    proper_table T -> In T tables -> 1 <= N -> cont_ok cont ->
+    proper_table T -> In T tables -> 1 <= N ->
     Forall (fun r => 1 <= r) pre ->
     (forall i, (i <= length pre)%nat -> zsum (firstn i pre) < N) ->
     N <= zsum pre + x ->
@@ -69,7 +77,7 @@ Print Assumptions C07_target_stop_is_first_boundary.
    iterations (explicit fuel bound: any prefix of length >= N suffices). *)
 Theorem C07_target_progress_bound :
   forall T tables N cont rs,
-    proper_table T -> In T tables -> 1 <= N -> cont_ok cont ->
+    proper_table T -> In T tables -> 1 <= N ->
     Forall (fun r => 1 <= r) rs -> Z.of_nat (length rs) >= N ->
     exists j, (1 <= j)%nat /\ Z.of_nat j <= N /\
       run tables (Some (mkCrit T N)) cont rs = Stopped j (base cont + zsum (firstn j rs)) /\
@@ -81,7 +89,7 @@ Print Assumptions C07_target_progress_bound.
 (* The same for an infinite behaviour r : nat -> Z, fuel = length of the prefix examined. *)
 Theorem C07_target_first_boundary_stream :
   forall T tables N cont (r : nat -> Z) fuel,
-    proper_table T -> In T tables -> 1 <= N -> cont_ok cont ->
+    proper_table T -> In T tables -> 1 <= N ->
     (forall j, 1 <= r j) -> Z.of_nat fuel >= N ->
     exists j, (1 <= j)%nat /\ Z.of_nat j <= N /\
       run tables (Some (mkCrit T N)) cont (prefix r fuel)
@@ -91,13 +99,13 @@ Theorem C07_target_first_boundary_stream :
 Proof. exact target_first_boundary_stream. Qed.
 Print Assumptions C07_target_first_boundary_stream.
 
-(* No run with a proper target loops forever, whatever the iterations create (zeros included):
-   N iterations of fuel suffice for a fresh run, N + 1 for a continued one. *)
+(* No run with a target loops forever, whatever the iterations create (zeros included), fresh or
+   continued: N iterations of fuel always suffice. *)
 Theorem C07_target_terminates :
   forall T tables N cont rs,
-    proper_table T -> In T tables -> 1 <= N -> cont_ok cont ->
+    proper_table T -> In T tables -> 1 <= N ->
     Forall (fun r => 0 <= r) rs ->
-    Z.of_nat (length rs) >= N + (match cont with None => 0 | Some _ => 1 end) ->
+    Z.of_nat (length rs) >= N ->
     forall n, run tables (Some (mkCrit T N)) cont rs <> Exhausted n.
 Proof. exact target_terminates. Qed.
 Print Assumptions C07_target_terminates.
@@ -106,67 +114,32 @@ Print Assumptions C07_target_terminates.
    raised only after an iteration that created no row of T, and only before the target is met. *)
 Theorem C07_target_error_only_without_progress :
   forall T tables N cont rs j e,
-    proper_table T -> In T tables -> cont_ok cont -> Forall (fun r => 0 <= r) rs ->
+    proper_table T -> In T tables ->
     run tables (Some (mkCrit T N)) cont rs = Failed j e ->
     exists n, j = S n /\ e = runtime_error /\ nth_error rs n = Some 0 /\
               forall i, (1 <= i <= n)%nat -> zsum (firstn i rs) < N.
 Proof. exact target_error_only_without_progress. Qed.
 Print Assumptions C07_target_error_only_without_progress.
 
-(* Fresh run: the first iteration that creates no row of T (before the target is met) ends the
-   run with that error at the end of exactly that iteration. *)
-Theorem C07_no_progress_fresh :
-  forall T tables N pre rest,
+(* Full statement (formerly refuted for continued runs, K7): in every run, fresh or continued,
+   the first iteration that creates no row of T before the target is met — also when it is the
+   very first iteration of a continued run — ends the run with that error at its own end. *)
+Theorem C07_no_progress :
+  forall T tables N cont pre rest,
     proper_table T -> In T tables -> 1 <= N ->
     Forall (fun r => 1 <= r) pre ->
     (forall i, (i <= length pre)%nat -> zsum (firstn i pre) < N) ->
-    run tables (Some (mkCrit T N)) None (pre ++ 0 :: rest)
+    run tables (Some (mkCrit T N)) cont (pre ++ 0 :: rest)
     = Failed (length pre + 1) runtime_error.
-Proof. exact no_progress_fresh. Qed.
-Print Assumptions C07_no_progress_fresh.
+Proof. exact no_progress. Qed.
+Print Assumptions C07_no_progress.
 
-(* Full statement for continued runs (the one above with [Some last0] for [None]):
-
-     forall T tables N last0 pre rest, proper_table T -> In T tables -> 1 <= N -> 0 <= last0 ->
-       Forall (fun r => 1 <= r) pre -> (forall i, i <= length pre -> zsum (firstn i pre) < N) ->
-       run tables (Some (mkCrit T N)) (Some last0) (pre ++ 0 :: rest)
-       = Failed (length pre + 1) runtime_error
-
-   is FALSE for the code as it is: SnowfakeryApplication.starting_id starts at 0 instead of at
-   the restored id, so a no-progress FIRST iteration of a continued run (last0 > 0) goes
-   unnoticed.  Known finding K7.  Refutation: *)
-Theorem C07_refuted_first_continued_iteration :
-  ~ (forall T tables N last0 pre rest,
-       proper_table T -> In T tables -> 1 <= N -> 0 <= last0 ->
-       Forall (fun r => 1 <= r) pre ->
-       (forall i, (i <= length pre)%nat -> zsum (firstn i pre) < N) ->
-       run tables (Some (mkCrit T N)) (Some last0) (pre ++ 0 :: rest)
-       = Failed (length pre + 1) runtime_error).
-Proof. exact refuted_first_continued_iteration. Qed.
-Print Assumptions C07_refuted_first_continued_iteration.
-
-(* What does hold (restriction: the no-progress iteration is not the first one, or last0 = 0):
-   after a first iteration r0 (which may itself be a tolerated zero when last0 > 0), the next
-   iteration without progress is detected at its own end.  Together with C07_target_terminates:
-   at most one no-progress iteration is ever tolerated and the run still cannot loop forever. *)
-Theorem C07_no_progress_continued_partial :
-  forall T tables N last0 r0 mid rest,
-    proper_table T -> In T tables -> 1 <= N -> 0 <= last0 -> 0 <= r0 ->
-    (r0 = 0 -> 0 < last0) ->
-    Forall (fun r => 1 <= r) mid ->
-    (forall i, (i <= length mid)%nat -> r0 + zsum (firstn i mid) < N) ->
-    run tables (Some (mkCrit T N)) (Some last0) (r0 :: mid ++ 0 :: rest)
-    = Failed (length mid + 2) runtime_error.
-Proof. exact no_progress_continued_partial. Qed.
-Print Assumptions C07_no_progress_continued_partial.
-
-(* Relative counting: a continued run whose first iteration makes progress behaves exactly like
-   a fresh run on the same iterations — same number of iterations, same error if any — with all
-   ids translated by last0.  The stop decision does not depend on the continuation's offset. *)
+(* Relative counting: a continued run behaves exactly like a fresh run on the same iterations —
+   same number of iterations, same error if any — with all ids translated by last0, for every
+   sequence and every offset.  The stop decision does not depend on the continuation's offset. *)
 Theorem C07_relative_after_continuation :
   forall T tables N last0 rs,
-    proper_table T -> In T tables -> 0 <= last0 ->
-    (match rs with [] => True | r0 :: _ => 1 <= r0 \/ last0 = 0 end) ->
+    proper_table T -> In T tables ->
     run tables (Some (mkCrit T N)) (Some last0) rs
     = shift_outcome last0 (run tables (Some (mkCrit T N)) None rs).
 Proof. exact relative_after_continuation. Qed.
@@ -181,16 +154,13 @@ Theorem C07_unknown_table_rejected :
 Proof. exact unknown_table_rejected. Qed.
 Print Assumptions C07_unknown_table_rejected.
 
-(* The hypothesis [proper_table] cannot be dropped: the empty table name (which no recipe can
-   create) passes the unknown-table test and disables the progress check, because both test the
-   truthiness of the name; the run then never ends (for every amount of fuel the model answers
-   Exhausted).  Known finding K10. *)
-Theorem C07_refuted_empty_table_name_never_ends :
-  forall tables N cont n,
-    1 <= N ->
-    run tables (Some (mkCrit "" N)) cont (repeat 0 n) = Exhausted n.
-Proof. exact refuted_empty_table_name_never_ends. Qed.
-Print Assumptions C07_refuted_empty_table_name_never_ends.
+(* In particular the empty table name (formerly K10: never rejected, run never ended). *)
+Theorem C07_empty_table_name_rejected :
+  forall tables N cont rs,
+    ~ In ""%string tables ->
+    exists kind, run tables (Some (mkCrit "" N)) cont rs = Failed 0 (DGE kind).
+Proof. exact empty_table_name_rejected. Qed.
+Print Assumptions C07_empty_table_name_rejected.
 
 (* ---- non-vacuity: concrete runs that satisfy the hypotheses ---- *)
 Example C07_ex_fresh_target :        (* 2 + 3 < 7 <= 2 + 3 + 2 *)
@@ -214,19 +184,35 @@ Example C07_ex_no_progress_fresh :
 Proof. vm_compute. reflexivity. Qed.
 
 Example C07_ex_no_progress_continued_second :
-  run ["T"]%string (Some (mkCrit "T" 9)) (Some 3) [0; 0; 4] = Failed 2 runtime_error.
-Proof. vm_compute. reflexivity. Qed.
-
-Example C07_ex_K7_witness :          (* first iteration of a continued run creates nothing *)
-  run ["T"]%string (Some (mkCrit "T" 2)) (Some 3) [0; 1; 1] = Stopped 3 5.
+  run ["T"]%string (Some (mkCrit "T" 9)) (Some 3) [1; 0; 4] = Failed 2 runtime_error.
 Proof. vm_compute. reflexivity. Qed.
 
 Example C07_ex_unknown_table :
   run ["M"; "T"]%string (Some (mkCrit "Q" 2)) None [1; 1] = Failed 0 (DGE "DataGenNameError").
 Proof. vm_compute. reflexivity. Qed.
 
+(* ---- regressions: the witnesses of the repaired defects now satisfy the property ---- *)
+Example C07_regression_K7_witness :  (* was Stopped 3 5: the zero first iteration went unnoticed *)
+  run ["T"]%string (Some (mkCrit "T" 2)) (Some 3) [0; 1; 1] = Failed 1 runtime_error.
+Proof. vm_compute. reflexivity. Qed.
+
+Example C07_regression_K7_chain :    (* fresh reps 1, then target (T,2) from id 2, first iteration 0 *)
+  chain ["M"; "T"; "E"]%string None [2; 0; 1; 2; 0; 1]
+        [(Some (mkCrit COUNT_REPS 1), 3%nat); (Some (mkCrit "T" 2), 5%nat)]
+  = [Stopped 1 2; Failed 1 runtime_error].
+Proof. vm_compute. reflexivity. Qed.
+
+Example C07_regression_K10_witness : (* was Exhausted n for every n *)
+  run ["M"; "T"; "E"]%string (Some (mkCrit "" 1)) None [0; 0; 0; 0]
+  = Failed 0 (DGE "DataGenNameError").
+Proof. vm_compute. reflexivity. Qed.
+
+Example C07_regression_K10_arithmetic : (* the application object alone: progress error at once *)
+  loop [0; 0; 0; 0] 0 (new_app (Some (mkCrit "" 1))) (init_idm None) = Failed 1 runtime_error.
+Proof. vm_compute. reflexivity. Qed.
+
 Example C07_ex_chain :               (* fresh reps 2, then target (T,4) counted from id 3 *)
-  chain ["M"; "T"]%string None [2; 1; 0; 3; 1; 5]
+  chain ["M"; "T"]%string None [2; 1; 3; 1; 5]
         [(Some (mkCrit COUNT_REPS 2), 10%nat); (Some (mkCrit "T" 4), 10%nat)]
-  = [Stopped 2 3; Stopped 3 7].
+  = [Stopped 2 3; Stopped 2 7].
 Proof. vm_compute. reflexivity. Qed.
